@@ -14,6 +14,7 @@ def run(rep, fb, tier):
 
 
 EXTRAS = [
+    lambda rep, fb, tier: __import__("vf.rules.pyrules", fromlist=["x"]).rule_py_list_content(rep),
     lambda rep, fb, tier: __import__("vf.rules.pyrules", fromlist=["x"]).rule_py_union_content_index(rep),
     lambda rep, fb, tier: __import__("vf.rules.pybind", fromlist=["x"]).rule_py_record_methods(rep),
     lambda rep, fb, tier: __import__("vf.rules.pyrules", fromlist=["x"]).rule_py_none_guard(rep),
